@@ -43,8 +43,8 @@ def judge(res, crash, case):
         err = crash['stderr']
         if 'ThreadSanitizer' in err:
             import re
-            m = re.search(r'WARNING: ThreadSanitizer: ([^\n(]*)', err)
-            frames = re.findall(r'#\d+ (\S+) /repo/src/(\S+?):', err)[:3]
+            m = re.search(r'SUMMARY: ThreadSanitizer: ([a-z A-Z-]*?) (?:/|\(|<)', err) or re.search(r'WARNING: ThreadSanitizer: ([^\n(]*)', err)
+            frames = re.findall(r'#\d+ (\S+) \S*/src/(\S+?):', err)[:3]
             raise Violation('tsan:' + (m.group(1).strip() if m else 'report'), case, 'frames: ' + ' < '.join(f[0] + ' ' + f[1] for f in frames) + '\n' + err[-2500:])
         raise Violation('crash:' + crash['kind'] + ':' + crash['summary'], case, err[-1500:])
     if crash:
@@ -57,11 +57,12 @@ def judge(res, crash, case):
 
 def replay_file(path):
     d = json.load(open(path))
-    try:
-        replay_case(d['case'])
-    except Violation as v:
-        print('VIOLATION property=%s replay=%s label=%s' % (PROP, path, v.label))
-        return 1
+    for _ in range(8):            # the schedule is fresh on every run: a racy workload gets 8 chances to show the race
+        try:
+            replay_case(d['case'])
+        except Violation as v:
+            print('VIOLATION property=%s replay=%s label=%s' % (PROP, path, v.label))
+            return 1
     print('replay: property held on', path)
     return 0
 
@@ -89,7 +90,12 @@ def main(tier, seed, workers):
         try:
             judge(res, crash, case)
         except Violation as v:
-            ctx.report(v, replay_case)
+            # which accesses collide depends on the schedule: a ThreadSanitizer report is evidence by itself (both stacks are in it);
+            # the replays (same seed, fresh schedule) have to reproduce a report once in up to 8 runs
+            if v.label.startswith('tsan:') or v.label.startswith('concurrent-'):
+                ctx.report(v, replay_case, tries=8, need=1, same=lambda a, b: a.split(':')[0] == b.split(':')[0])
+            else:
+                ctx.report(v, replay_case)
         except Inconclusive:
             m['inconclusive'] += 1
         if res:
